@@ -35,9 +35,13 @@ enum Route {
     EvalQuoted,
     RoundTripOfLiteral,
     RoundTripOfStringToSymbol,
+    /// string->symbol applied by a tail call inside a procedure
+    StringToSymbolInTailPosition,
+    /// the symbol travels through a pair and a vector before it is used
+    StringToSymbolThroughData,
 }
 
-const ROUTES: [Route; 7] = [
+const ROUTES: [Route; 9] = [
     Route::StringToSymbol,
     Route::Literal,
     Route::QuotedListElement,
@@ -45,7 +49,13 @@ const ROUTES: [Route; 7] = [
     Route::EvalQuoted,
     Route::RoundTripOfLiteral,
     Route::RoundTripOfStringToSymbol,
+    Route::StringToSymbolInTailPosition,
+    Route::StringToSymbolThroughData,
 ];
+
+fn is_reader_route(r: Route) -> bool {
+    matches!(r, Route::Literal | Route::QuotedListElement | Route::MacroOutput | Route::EvalQuoted | Route::RoundTripOfLiteral)
+}
 
 fn sym(s: &str) -> Cell {
     Cell::Symbol(s.to_string())
@@ -60,7 +70,7 @@ fn quote(c: Cell) -> Cell {
 /// expression producing the symbol named `name` by `route` (None: route not applicable)
 fn produce(route: Route, name: &str, reader_spellable: bool) -> Option<Cell> {
     let s2s = |n: &str| list(vec![sym("string->symbol"), Cell::String(n.to_string())]);
-    let needs_reader = !matches!(route, Route::StringToSymbol | Route::RoundTripOfStringToSymbol);
+    let needs_reader = !matches!(route, Route::StringToSymbol | Route::RoundTripOfStringToSymbol | Route::StringToSymbolInTailPosition | Route::StringToSymbolThroughData);
     if needs_reader && !reader_spellable {
         return None;
     }
@@ -72,6 +82,15 @@ fn produce(route: Route, name: &str, reader_spellable: bool) -> Option<Cell> {
         Route::EvalQuoted => list(vec![sym("eval"), list(vec![sym("list"), quote(sym("quote")), quote(sym(name))])]),
         Route::RoundTripOfLiteral => list(vec![sym("string->symbol"), list(vec![sym("symbol->string"), quote(sym(name))])]),
         Route::RoundTripOfStringToSymbol => list(vec![sym("string->symbol"), list(vec![sym("symbol->string"), s2s(name)])]),
+        Route::StringToSymbolInTailPosition => list(vec![
+            list(vec![sym("lambda"), list(vec![sym("c18-s")]), list(vec![sym("if"), Cell::Bool(true), list(vec![sym("string->symbol"), sym("c18-s")]), Cell::Bool(false)])]),
+            Cell::String(name.to_string()),
+        ]),
+        Route::StringToSymbolThroughData => list(vec![
+            sym("vector-ref"),
+            list(vec![sym("vector"), list(vec![sym("car"), list(vec![sym("list"), s2s(name)])])]),
+            Cell::Number(marwood::number::Number::Fixnum(0)),
+        ]),
     })
 }
 
@@ -175,7 +194,7 @@ fn check(ctx: &Ctx, p: Params) -> Outcome {
     };
     let between = ["nothing", "forced-collection", "garbage+collections", "next-evaluation", "collection-every-k"][sep];
     let render = json!({"name1": n1, "name2": n2, "route1": format!("{:?}", r1), "route2": format!("{:?}", r2), "between": between, "first-kept": keep, "k": k});
-    let involves_reader = !matches!(r1, Route::StringToSymbol | Route::RoundTripOfStringToSymbol) || !matches!(r2, Route::StringToSymbol | Route::RoundTripOfStringToSymbol);
+    let involves_reader = is_reader_route(r1) || is_reader_route(r2);
     let involves_s2s = !matches!(r1, Route::Literal | Route::QuotedListElement | Route::MacroOutput | Route::EvalQuoted) || !matches!(r2, Route::Literal | Route::QuotedListElement | Route::MacroOutput | Route::EvalQuoted);
     let classify = |kind: &str, name: &str| -> String {
         match name_class(name, involves_reader, involves_s2s) {
@@ -259,7 +278,7 @@ fn check(ctx: &Ctx, p: Params) -> Outcome {
         match eval_cell(&mut s, &rt) {
             Ok(Cell::Bool(true)) => {}
             Ok(other) => {
-                let reader_route = !matches!(r2, Route::StringToSymbol | Route::RoundTripOfStringToSymbol);
+                let reader_route = is_reader_route(r2);
                 let sig = match name_class(&n2, reader_route, true) {
                     Some(cl) => format!("C18|{}", cl),
                     None => "C18|string->symbol-of-symbol->string".to_string(),
@@ -300,7 +319,7 @@ impl Prop for C18 {
         "C18"
     }
     fn rule(&self) -> &'static str {
-        "a pair of names (equal with probability 1/2; built from a 40-lexeme alphabet incl. empty, delimiters, backslash, |, #, digits, signs, dots, whitespace, non-ASCII, astral, or random scalars, or very long) x two production routes out of 7 (literal, quoted-list element, string->symbol, macro output, eval, round trips) x what happens between the productions (nothing / forced collection / garbage + collections / next evaluation / collection every k-th instruction) x first product kept or dropped. Checked: (eq? s1 s2) iff names equal; (symbol->string (string->symbol s)) = s; (eq? (string->symbol (symbol->string y)) y); collector invariants. Non-trivial: a collection ran between the productions or the name needs escaping; distinct by the rendered case."
+        "a pair of names (equal with probability 1/2; built from a 40-lexeme alphabet incl. empty, delimiters, backslash, |, #, digits, signs, dots, whitespace, non-ASCII, astral, or random scalars, or very long) x two production routes out of 9 (literal, quoted-list element, string->symbol, macro output, eval, round trips, string->symbol in tail position of a procedure, string->symbol passed through a pair and a vector) x what happens between the productions (nothing / forced collection / garbage + collections / next evaluation / collection every k-th instruction) x first product kept or dropped. Checked: (eq? s1 s2) iff names equal; (symbol->string (string->symbol s)) = s; (eq? (string->symbol (symbol->string y)) y); collector invariants. Non-trivial: a collection ran between the productions or the name needs escaping; distinct by the rendered case."
     }
     fn assumptions(&self) -> Vec<&'static str> {
         vec![
